@@ -86,6 +86,13 @@ def gen_groups(rng, n_groups):
                 vals = [min(v, math.pi) for v in vals]
                 dt = rng.choice(['float64', 'float32']) if single else 'float64'
                 unit = rng.choice(NAT[nm][0])
+                if rng.random() < 0.15:
+                    # integer angles (whole degrees / whole radians) are valid operands
+                    dt = rng.choice(['int64', 'int32'])
+                    vals = [math.radians(rng.randint(1, 179)) for _ in range(n)] if unit[0] == 'deg' \
+                        else [float(rng.randint(1, 3)) for _ in range(n)]
+                    ops[nm] = {'values': [int(round(v / unit[1])) for v in vals], 'unit': unit[0], 'dtype': dt, 'dim': dim}
+                    continue
                 if unit[0] == 'deg':    # stay inside (0, pi] after the deg->rad rounding
                     vals = [min(v, 3.1415) for v in vals]
                 ops[nm] = operand(rng, 'angle', vals, dtype=dt, dim=dim, unit=unit)
@@ -128,8 +135,9 @@ def correspondence(ctx):
         if not r.get('inputs_unchanged', True):
             mutated += 1
         res_dtype = (r.get('result') or {}).get('dtype')
-        any32 = res_dtype == 'float32' or any(o['dtype'] == 'float32' for o in g['operands'].values())
-        # a float32 operand limits the accuracy of the (possibly float64) result to single precision
+        # the promised accuracy follows the RESULT's precision class (property: 1e-11 double / 1e-5 single;
+        # we hold 1e-12 / 2e-6): a float64 result must be double-accurate w.r.t. the operands as stored
+        any32 = res_dtype == 'float32'
         tol = '(1 # 1000000000000)' if not any32 else '(2 # 1000000)'
         if '>' in g['kname'] and not any32:
             tol = '(3 # 1000000000000)'
@@ -147,6 +155,8 @@ def correspondence(ctx):
     for i, why in sorted(fails.items()):
         d = descs[i]
         key = f'{d["kernel"]}:{why.split(":")[0]}'
+        if why == 'value-single-precision-level':
+            pass   # one class per kernel: a float64 result that is only single-precision accurate
         if key in seen:
             continue
         seen.add(key)
